@@ -8,6 +8,7 @@ import (
 	"io/fs"
 	"os"
 	"path/filepath"
+	"strings"
 	"syscall"
 
 	"github.com/oklog/ulid/v2"
@@ -75,7 +76,46 @@ func (bs *filesystemPartStore) Start(ctx context.Context) error {
 	if err := bs.ValidatedLifecycle.Start(ctx); err != nil {
 		return err
 	}
-	return bs.ensureRootDir()
+	if err := bs.ensureRootDir(); err != nil {
+		return err
+	}
+	return bs.restoreOrphanedBackups()
+}
+
+// restoreOrphanedBackups finishes the rollback of transactions that were
+// interrupted by a process crash. A pre-commit hook renames a part file to
+// "<part>.txbackup.<ulid>" before the database commit; only the after-commit
+// hook (commit succeeded) or the rollback hook (commit failed) resolves that
+// backup, and after a crash neither has run. A backup whose part file is
+// missing is renamed back: if the transaction had not committed, the database
+// still references the part; if it had, the restored file is an unreferenced
+// part that garbage collection removes. Backups whose part file exists are
+// left untouched.
+func (bs *filesystemPartStore) restoreOrphanedBackups() error {
+	dirEntries, err := os.ReadDir(bs.root)
+	if err != nil {
+		return err
+	}
+	for _, dirEntry := range dirEntries {
+		if dirEntry.IsDir() {
+			continue
+		}
+		partFilename, _, isBackup := strings.Cut(dirEntry.Name(), ".txbackup.")
+		if !isBackup {
+			continue
+		}
+		if _, ok := bs.tryGetPartIdFromFilename(partFilename); !ok {
+			continue
+		}
+		filename := filepath.Join(bs.root, partFilename)
+		if _, err := os.Lstat(filename); err == nil || !errors.Is(err, fs.ErrNotExist) {
+			continue
+		}
+		if err := os.Rename(filepath.Join(bs.root, dirEntry.Name()), filename); err != nil {
+			return err
+		}
+	}
+	return nil
 }
 
 func (bs *filesystemPartStore) PutPart(ctx context.Context, tx database.Tx, partId partstore.PartId, reader io.Reader) error {
